@@ -12,8 +12,8 @@ import (
 	"strings"
 
 	"github.com/whoisnian/glb/util/ioutil"
-	"github.com/whoisnian/glb/zzverif/vsched"
 	"verif/engine/sdrive"
+	"verif/engine/shim/vsched"
 )
 
 var errUnder = errors.New("underlying write failed")
